@@ -253,7 +253,8 @@ def load_known(pid: str) -> List[Dict[str, Any]]:
     if KNOWN_FINDINGS.exists():
         for line in KNOWN_FINDINGS.read_text().splitlines():
             line = line.strip()
-            if not line or line.startswith("#"):
+            if not line or line.startswith("#") or line.startswith("fixed:"):
+                # "fixed: property=<id> <commit> <what failed>" lines are documentation only
                 continue
             e = json.loads(line)
             if e.get("property") == pid and e.get("status", "known") == "known":
@@ -402,7 +403,8 @@ def main(mod: Any) -> None:
     shrunk = {}  # type: Dict[str, Any]
     if violations and (getattr(mod, "shrink", None) is not None or getattr(mod, "AUTO_SHRINK", True)):
         budget = 25.0 if args.tier == "quick" else 120.0
-        sjobs = [(modname, f["case"], bucket, budget) for bucket, f in violations]
+        # at most 8 buckets are shrunk; the others keep their smallest observed case
+        sjobs = [(modname, f["case"], bucket, budget) for bucket, f in violations[:8]]
         try:
             mpctx = multiprocessing.get_context("spawn")
             with mpctx.Pool(min(16, len(sjobs))) as pool:
